@@ -324,6 +324,40 @@ pub fn run_one(cfg : &Config, seed : u64, k : u64, stats : &mut Stats) -> Vec<Fo
             if rng.chance(3, 5) { case.ops.push(Op::Write{ path : l.clone(), content : rng.pick(&[b"A".to_vec(), b"B".to_vec()]).clone() }); }
         }
     }
+    // C06: the three-party situation — several rules want one shared cache file back while another
+    // rule's target, holding the very same bytes, has to be moved out of the way into the cache
+    if prop == "C06" && !c06_epochs && rng.chance(1, 3)
+    {
+        let rules_now = gen.current_rules();
+        let files_now = gen.current_files();
+        let reader = move |p : &str| files_now.get(p).cloned();
+        if let Ok(m) = super::super::model::evaluate(&rules_now, None, &reader)
+        {
+            let mut by_content : BTreeMap<Vec<u8>, Vec<String>> = BTreeMap::new();
+            for o in m.outcomes.values()
+            {
+                if let Outcome::Built(ts) = o { for (t, b, _) in ts.iter() { by_content.entry(b.clone()).or_insert(vec![]).push(t.clone()); } }
+            }
+            let shared : Vec<(Vec<u8>, Vec<String>)> = by_content.iter().filter(|(_, ts)| ts.len() >= 2).map(|(c, ts)| (c.clone(), ts.clone())).collect();
+            let all_targets : Vec<String> = by_content.values().flatten().cloned().collect();
+            if shared.len() > 0
+            {
+                let (content, owners) = rng.pick(&shared).clone();
+                let others : Vec<String> = all_targets.into_iter().filter(|t| !owners.contains(t)).collect();
+                if others.len() > 0
+                {
+                    stats.inc("c06.three_party_scenarios");
+                    case.ops.push(Op::Build{ goal : None, sched : SchedSpec::random(&mut rng) });
+                    case.ops.push(Op::Clean{ goal : None, sched : SchedSpec::random(&mut rng) });
+                    let n = 1 + rng.below(2) as usize;
+                    for _ in 0..n
+                    {
+                        case.ops.push(Op::Write{ path : rng.pick(&others).clone(), content : content.clone() });
+                    }
+                }
+            }
+        }
+    }
     // C05: a storage fault on a state file before the victim (the call must still return a value)
     if prop == "C05" && case.ops.iter().any(|o| o.is_invocation()) && rng.chance(1, 6)
     {
